@@ -42,6 +42,12 @@ CLAIMED = {
          'position updates and match the frozen contract; the error table is total, unique and non-empty; failing opens pass psf_close and set sf_errno. '
          'Histories of interleaved calls and file-content preservation are not decided.',
          'sibling fact-sheet cross-check (normalised AST facts), table extraction, must-pass path rules over clang CFG'),
+ 'C14': ('DESIGN.md §4 C14',
+         'Structural clauses that make the routes one implementation: only file_io.c touches descriptors and raw syscalls; every descriptor syscall in an I/O primitive is reached only '
+         'with virtual_io == 0 (the vio route returned before); raw close only with virtual_io == 0 and do_not_close_descriptor == 0, the flag is !close_desc, early failures of sf_open_fd '
+         'close the caller descriptor only under close_desc; all three open entry points initialise the descriptor fields to -1 before anything can fail; fileoffset is applied symmetrically '
+         'in seek/tell/length; embedding whitelist and append-at-end positioning. Equality of results across routes is not decided.',
+         'who-may-call / layering rule + guard-fact (interval) analysis on clang CFG + dominance rules'),
 }
 REASONS = {}
 DEFAULT_REASON = 'check not built yet (work in progress); see DESIGN.md'
